@@ -95,10 +95,31 @@ BUILT={
         "Sampling except for the u16 sweep. Attached header names avoid content-type/x-request-id; responses hyper itself produces for unparsable HTTP are out of scope.",
         "DESIGN.md section 4 C13"),
 }
+# phases added after the seed rounds (DESIGN.md sections 9 and 12); appended to the level text
+ADDED={
+"C01": " Further phases: accepted_sets (sets with arbitrary extra version ranges that dropshot accepts completely in an order and its reverse must dispatch identically and no probe may match two accepted endpoints) and unversioned_servers (one endpoint set in four registration orders started as an unversioned server: accepted in all orders or none, identical answers).",
+"C02": " Parameter schemas also include documented enums, oneOf with mixed alternatives, $ref to scalar/object types and nullable refs; the method pool includes two extension methods in non-upper-case spelling.",
+"C03": " 15% of the paths are deep (6-93 segments, slash runs up to 47).",
+"C05": " Further phases: membership_shapes (every pair of disjoint ranges on an exact route plus the wildcard route below it, or on one route, both orders) and header policy against three APIs (ladder, only unrestricted endpoints, unrestricted plus restricted elsewhere).",
+"C07": " The baseline API has two endpoint-specific error types with the same bare name in different modules; body-size refusals are a precondition and not judged.",
+"C08": " The zoo has ~90 types; enrichment also generates numeric limits beyond the i64 range and fractional ones.",
+"C09": " Further phases: h2_multiplexed (a whole batch as concurrent streams of one HTTP/2 connection, with declared length or DATA frames of generated sizes incl. zero-length frames), h2_multipart_storm (ten servers hit at once by 12-40 concurrent small multipart streams each; statistical guard for the D11 race), https_interleaved_handshakes; echo endpoints for paginated first-page parameters, wildcard remainders typed as enums/UUIDs and a flat type over JSON.",
+"C10": " Further malformation classes: an undecodable component of a typed wildcard remainder, ill-typed/missing/duplicated first-page parameters of a paginated endpoint, and a body well-formed for the other typed-body encoding and labelled as such.",
+"C12": " A quarter of the in-process cases build an unserialisable response on the same thread first (it must be refused and leave nothing behind).",
+"C13": " Also: 1-23 concurrent clients (ids unique across concurrent requests) and handlers that put an x-request-id of their own on the response (the request's own id must still be there).",
+"C14": " Repeated scan parameters next to a token are generated too (ignored like any other scan parameter).",
+"C15": " 7% of the fillers push the token over the framework's maximum: the server may abort such a scan with an error (not judged) but must not return a non-empty page without a token.",
+"C16": " HTTPS variants of every scenario class.",
+"C17": " The release of every wait_for_shutdown() future is ordered like close(); a quarter of the scenarios request shutdown by dropping the server; HTTPS variants.",
+"C18": " HTTPS batches (scripts inside and outside the TLS session), four stalled connections held open throughout, and bursts of connections reset the moment they are established.",
+"C19": " Phase served_live: every endpoint (function and trait style) gets a valid request; the handler-observed request_body_max_bytes() must be the declared limit (else the server default) and buffered bodies of exactly limit / limit+1 bytes are accepted / refused.",
+"C20": " Same handshakes over HTTPS; phase burst_then_flush (handler writes until the connection takes no more, flushes and waits; every byte must arrive; plain and TLS).",
+}
 checks=[]
 for i in ids:
     if i in BUILT:
         t,lt,ln,ref=BUILT[i]
+        lt=lt+ADDED.get(i,"")
         checks.append({
             "property_id": i,
             "quick_cmd": f"./check {i} quick",
